@@ -428,6 +428,11 @@ C05_IterAccept(c, trk, call, o) ==
 C04_Accept(c, trk, call, o) ==
   IF call.op = "elf_sections_deprecated" /\ trk.loaded = "bi" THEN
      (EffGet(c.mem, "elf").k = "absent" \/ ElfDeprValid(c)) => AcceptElfDeprecated(c, trk, o)
+  \* module_tags(): every module tag of the walk, in order (where the walk itself is sound and the module tags conformant)
+  ELSE IF (call.op = "module_tags" \/ (call.op \in {"next", "count"} /\ HasIt(trk, call.it) /\ ItOf(trk, call.it).kind = "module_tags"))
+          /\ trk.loaded = "bi" /\ InfoWalk(c.mem).fin = "none"
+          /\ (\A i \in 1..Len(ModItems(InfoWalk(c.mem))) : ModItems(InfoWalk(c.mem))[i].size >= ModuleBase)
+       THEN C03_Accept(c, trk, call, o)
   ELSE IF ~IsInfoRead(call) \/ trk.loaded # "bi" THEN TRUE
   ELSE LET g == EffGet(c.mem, KindOfCall(call)) IN
        (g.k = "absent" \/ (g.k = "must" /\ SpecConformant(c.mem, KindOfCall(call), g.it))) /\ call.op # "str"
@@ -652,6 +657,9 @@ C20_Accept(c, trk, call, o) ==
     [] call.op = "conv_mem_area_type" -> AcceptConvMemArea(call.x, call.y, o)
     [] call.op = "conv_elf_type" -> AcceptConvElf(call.x, o)
     [] call.op = "magic" -> AcceptMagic(o)
+    \* the framebuffer type byte of a stored tag is classified through the getter and through buffer_type()
+    [] call.op \in {"get", "field"} /\ trk.loaded = "bi" /\ call.kind = "framebuffer" /\ (call.op = "get" \/ call.f = "buffer_type") ->
+         EffGet(c.mem, "framebuffer").k = "must" => AcceptInfoRead(c, trk, call, o)
     [] OTHER -> TRUE
 
 \* ---- C01: never outside the region, never a crash, references inside the owning tag ------------
